@@ -22,7 +22,7 @@ RULE = ("(a) every sequence of length <=4 over {7 fixed changes, undo, redo, und
         "undo/redo took effect; distinct = the sequence of (step kind, #changes undone/redone) pairs")
 ASSUMPTIONS = ["no external edits between steps", "path identifies a resource (generated names never reuse a "
                "folder name for a file)"]
-BUDGET = {"quick": (8000, 60), "thorough": (400000, 480)}
+BUDGET = {"quick": (8000, 240), "thorough": (280000, 900)}
 EXHAUSTIVE = {}
 REQUIRE = {"undo_effective": 100, "redo_effective": 50, "selective_effective": 20, "multi_dependency_undos": 5}
 TECHNIQUE = ("lock-step differential against an executable reference model of the history (dict file tree + "
